@@ -96,30 +96,10 @@ class Discharger:
         return res
 
     def _notify_dead(self):
-        """Request.notify_when_responded is Some only via with_notify_sender, whose callers are in
-        the TLS-only branch (dead in this configuration)"""
-        facts = self.facts
-        ctx = self.ctx
-        ok = shared.tls_const_false(ctx)
-        setters = set()
-        for f, bb, kind, x in facts.field_writes(REQ, "notify_when_responded"):
-            if kind == "construct":
-                r = x["rhs"]
-                idx = r["fields"].index("notify_when_responded")
-                o = f.origin(r["ops"][idx])
-                if not (o[0] == "agg" and o[4] == "None"):
-                    ok = False
-            elif kind in ("assign", "calldest"):
-                setters.add(f.id)
-            elif kind == "mutref":
-                pass
-        for s in setters:
-            for g, bb, t in facts.callers_of(s):
-                if not shared.tls_branch_dead(ctx, g, bb):
-                    ok = False
-            if not facts.callers_of(s):
-                pass
-        return ok
+        """the Request's completion-notice slot is armed only on the TLS-only branch (dead in this configuration)"""
+        ok, path = shared.notify_slot_dead(self.ctx)
+        self.ns = shared.notify_slot(self.facts)
+        return ok and self.ns is not None and "ambiguous" not in (self.ns or {})
 
     def _chain_ok(self, which):
         """the turn-chain rules (C01.2-4 / C09.4) hold: evaluated here again on a private context"""
@@ -215,10 +195,11 @@ class Discharger:
                 if r:
                     return ("D-LITERAL", r)
             # D-DEAD-CFG: notify sender
-            if o[0] == "call" and o[1] == SEND and ("sender" in flds or self._from_notify(f, o)) and self.notify_dead:
-                return ("D-DEAD-CFG", "notify_when_responded is never Some in this configuration (set only on the HTTPS branch)")
-            if f.rec.get("impl_self_adt") == "request::NotifyOnDrop" and self.notify_dead and self._notify_on_drop_dead():
-                return ("D-DEAD-CFG", "NotifyOnDrop is only built when notify_when_responded is Some (HTTPS only)")
+            if o[0] == "call" and o[1] == SEND and self._from_notify(f, o) and self.notify_dead:
+                return ("D-DEAD-CFG", "the completion-notice slot of the Request is never armed in this configuration (armed only on the HTTPS branch)")
+            own = f.rec.get("impl_self_adt")
+            if f.rec.get("impl_trait") == T_DROP and own and o[0] == "call" and o[1] == SEND and self.sender_field(own) in flds and self.notify_dead and self._notify_on_drop_dead(own):
+                return ("D-DEAD-CFG", "the notice-on-drop wrapper is only built when the completion-notice slot is armed (HTTPS only)")
         if t["t"] == "call" and re.search(r"core::panicking::", name):
             # assert!(slot.is_some()) in the extract helpers / unreachable!() in state machines
             dom = f.dominators(False)
@@ -376,27 +357,59 @@ class Discharger:
         return True
 
     def _from_notify(self, f, o):
-        return any(x[0] == "field" and x[2] == "notify_when_responded" for x in origin_walk(o)) or \
-            any(x[0] == "call" and x[1].endswith("Option::<T>::take") and "notify_when_responded" in origin_fields(x) for x in origin_walk(o))
+        fld = self.ns["field"] if self.ns else None
+        return fld is not None and any(x[0] == "field" and x[2] == fld for x in origin_walk(o))
 
-    def _notify_on_drop_dead(self):
+    def sender_field(self, adt):
+        a = self.facts.adts.get(adt)
+        if a is None or a["kind"] != "Struct":
+            return None
+        xs = [x["name"] for x in a["variants"][0]["fields"] if x["ty"] == shared.SENDER_UNIT]
+        return xs[0] if len(xs) == 1 else None
+
+    def _notify_on_drop_dead(self, adt):
+        """every construction of this wrapper (a struct holding a Sender<()> that its Drop sends on) is unreachable on the abstract paths of
+        the Request's API started with the notice slot empty (its dead value in this configuration)"""
+        memo = self.__dict__.setdefault("_nod_dead", {})
+        if adt in memo:
+            return memo[adt]
         facts = self.facts
-        for g, bb, s in facts.constructions("request::NotifyOnDrop"):
-            # must sit on the Some arm of a take() of notify_when_responded
-            dom = g.dominators(False)
-            ok = False
-            for b in dom[bb]:
-                sw = switch_on_discr(g, b)
-                if sw and sw[0].get("adt") == "std::option::Option":
-                    o = g.origin_place(sw[0]["pl"])
-                    if self._from_notify(g, o):
-                        rv, m, otherwise, rest = sw
-                        st = m.get("Some", otherwise if "Some" in rest else None)
-                        if st is not None and g.dominates(st, bb, unwind=False):
-                            ok = True
-            if not ok:
-                return False
-        return True
+        import request_rules as RR, absint
+        RM = RR.rmodel(facts)
+        ok = self.ns is not None
+        cons = facts.constructions(adt) if ok else []
+        def hosts_of(g, bb):
+            out = []
+            for m in RM.methods.values():
+                if not m.rec.get("vis_pub"):
+                    continue
+                f = RM.fn(m)
+                bs = [b for b in range(f.n) if f.src_of(b) == g.id and f.blocks[b].get("obb", b) == bb and not f.blocks[b].get("synthetic")]
+                if bs:
+                    out.append((m, f, set(bs)))
+            return out
+        sites = [(g, bb, 0) for g, bb, s in cons]
+        while sites:
+            g, bb, depth = sites.pop()
+            hosts = hosts_of(g, bb)
+            if not hosts:
+                # built inside a constructor function that lives elsewhere: judge the places that call it
+                callers = facts.callers_of(g.id)
+                if not callers or depth > 3:
+                    ok = False
+                sites += [(g2, b2, depth + 1) for g2, b2, t2 in callers]
+                continue
+            for m, f, bs in hosts:
+                st = symex.Sym(f)
+                base = RM.self_base(m)
+                st.write_key(RM.key(base, self.ns["path"]), self.ns["dead"])
+                st.write_key(RM.key(base, RM.wslot), ("some", RR.WRITER))
+                st.write_key(RM.key(base, RM.rslot), ("some", RR.READER))
+                ps = absint.explore(f, 0, st, max_paths=6000)
+                if any(p.end[0] == "cut" for p in ps) or any(bs & set(p.blocks) for p in ps):
+                    ok = False
+        memo[adt] = ok and bool(cons)
+        return memo[adt]
 
     def ascii_args(self, f, o):
         descs = []
